@@ -8,9 +8,21 @@
 #include "api.h"
 #include "randhook.h"
 uint32_t datasketches_verif_random_bit(void) { return (uint32_t)ND_BOOL(); }
-static long live, ctors, dtors; static int negative;
-void verif_item_ctor(uint8_t* self) { live++; ctors++; }
-void verif_item_dtor(uint8_t* self) { live--; dtors++; if (live < 0) negative = 1; }
+static long live, ctors, dtors; static int negative, phantom_dtor, double_ctor;
+/* address-level tracking: a destructor may only run on storage that currently holds a constructed item, a constructor only on storage that does not
+ * (a leaked item and a destructor call on raw storage would otherwise cancel out in the counters) */
+#define NLIVE 48
+static const uint8_t* livep[NLIVE];
+void verif_item_ctor(uint8_t* self) {
+  live++; ctors++; int done = 0;
+  for (int i = 0; i < NLIVE; i++) if (livep[i] == self) double_ctor = 1;
+  for (int i = 0; i < NLIVE; i++) if (!done && livep[i] == 0) { livep[i] = self; done = 1; }
+}
+void verif_item_dtor(uint8_t* self) {
+  live--; dtors++; if (live < 0) negative = 1; int found = 0;
+  for (int i = 0; i < NLIVE; i++) if (!found && livep[i] == self) { livep[i] = 0; found = 1; }
+  if (!found) phantom_dtor = 1;
+}
 void harness(void) {
   void* a = w_ki_new(8); void* b = w_ki_new(8);
   int sym = 0;
@@ -29,6 +41,8 @@ void harness(void) {
   w_ki_delete(a); w_ki_delete(b);
   OBSERVE(ctors); OBSERVE(dtors);
   ASSERT(!negative, "no item destroyed more often than constructed");
+  ASSERT(!phantom_dtor, "no destructor runs on storage that holds no constructed item");
+  ASSERT(!double_ctor, "no item constructed over a live item");
   ASSERT(live == 0 && ctors == dtors, "every constructed item has been destroyed exactly once when the last sketch dies");
   WITNESS();
 }
